@@ -68,12 +68,14 @@ def make(cls, n, scripts, tol, before_fault=None, after_fault=None):
     for i in range(n):
         m.A[i] = 0.25 * i
         m.B[i] = -0.5 * i
+    m.__dict__['v_touch_exog'] = TOUCH['on']
     # variables with longer names (one of them spelt from the names of two others): a single name given as a string is one name
     for name, f in EXTRA.items():
         m.add_variable(name, [f(i) for i in range(n)])
     return m
 
 
+TOUCH = {'on': False}      # whether the scripted passes also move the exogenous X (set per case)
 EXTRA = {'AB': lambda t: 0.125 * t + 7.0, 'Xtra': lambda t: -3.0 - t}
 
 
@@ -103,6 +105,7 @@ def trace_image(m):
 
 def full_check(ctx, cls, n, scripts, opts, spec, entry, arg, tol, faults, case, repeat=1):
     """Traced vs untraced twin + exact expected trace (labels and values)."""
+    TOUCH['on'] = bool(case.get('touch_exog'))
     A = make(cls, n, scripts, tol, *faults)
     # the untraced twin: the same tracer-extended class called without trace=..., or (every other case) the plain
     # model class without the mixin - tracing support must be transparent either way
@@ -269,7 +272,7 @@ def run_shard(ctx):
             faults = (None, rng.choice(['exc', 'warn']))
         repeat = 2 if rng.random() < 0.3 else 1
         interlude = rng.choice(['none', 'list-assign', 'copy', 'copy-then-list-assign'])
-        case = dict(n=n, cls=cls.__name__, trace=spec, entry=entry, arg=arg, arg_numpy=(entry == 'solve_t' and rng.random() < 0.3), opts=opts, faults=list(faults), repeat=repeat, interlude=interlude, twin=rng.choice(['same', 'plain']),
+        case = dict(n=n, cls=cls.__name__, trace=spec, entry=entry, arg=arg, arg_numpy=(entry == 'solve_t' and rng.random() < 0.3), touch_exog=rng.random() < 0.3, opts=opts, faults=list(faults), repeat=repeat, interlude=interlude, twin=rng.choice(['same', 'plain']),
                     scripts={str(k): v for k, v in scripts.items()})
         ctx.evaluation(case, nontrivial=True, sample=case)
         ctx.seen('trace_specs', repr(spec))
